@@ -16,19 +16,42 @@ WITNESSES = [
      "ipc", "1.1.1.1.1.1.1.0.0.0.0", "c0+s0", ["q_0", "sr_0", "as_0", "pd_0", "qd_0", "qd_0", "q_0", "as_0", "pr_0", "pr_0"]),
     ("client loan fails with OutOfMemory inside all limits (no request overflow)",
      "local", "1.1.1.1.1.1.1.0.0.0.0", "c0+s0", ["q_0", "sr_0", "pd_0", "qd_0", "q_0", "l_0"]),
-    ("server loan fails with OutOfMemory inside all limits, and the failed loan leaks the per-request loan counter",
+    ("server loan fails with OutOfMemory inside all limits; the failed loan gives the per-request loan counter back (fixed: 99179a3)",
      "local", "1.1.2.1.1.2.1.0.0.0.0", "c0+s0",
      ["q_0", "sr_0", "as_0", "as_0", "pd_0", "ad_0"] * 4 + ["q_0", "sr_0", "as_0", "al_0", "pr_0", "pr_0", "al_0"]),
 ]
+
+
+# Candidate defects of /repo found by this check and reported to the lead, who decides between a fix: commit in /repo
+# and an entry in known_findings.json (matched by the same key).  Until then the check prints CANDIDATE-DEFECT for them
+# (with a replay file) instead of VIOLATION.  Remove a key here as soon as it is adjudicated.
+# key -> (what, harness argv after the executable, regex on the harness output that shows the defect)
+CYCLE = ["q_0", "sr_0", "as_0", "as_0", "pd_0", "ad_0"]
+PENDING_CANDIDATES = {
+    "limits:server-loan-oom-stale-responses-pin-chunks": (
+        "unread responses stay queued in a channel after its PendingResponse is dropped; a response connection has "
+        "max_servers*2*max_active+max_loaned channels but the server segment is sized for 2*max_active channels: with max_servers=2 "
+        "(one server), rb=2, four request cycles with two unread responses each make the fifth request's send_copy fail with OutOfMemory",
+        ["hist", "local", "1.1.2.1.1.2.1.0.0.0.0", "c0+s0"] + CYCLE * 4 + ["q_0", "sr_0", "as_0"],
+        r"O as 0 = e:oom"),
+    "limits:client-loan-oom-without-request-overflow": (
+        "required_amount_of_chunks_per_client_data_segment (max_servers*2*max_active+max_loaned) does not count the chunk pinned by a live "
+        "PendingResponse whose request no server accepted (buffer full, no request overflow): loan_uninit fails with OutOfMemory with 0 loans outstanding",
+        ["hist", "local", "1.1.1.1.1.1.1.0.0.0.0", "c0+s0", "q_0", "sr_0", "pd_0", "qd_0", "q_0", "l_0"],
+        r"O l 0 = e:oom"),
+}
 
 
 def classify(line):
     """Stable key of a property violation (kind=spec mismatch)."""
     m = re.search(r"what=(\w+)", line)
     what = m.group(1) if m else "?"
-    if what in ("routing", "disconnect"):
-        # both are faces of the same defect: ActiveRequest addresses its client by slot index
+    if what in ("routing_newclient", "disconnect_newclient"):
+        # both are faces of the same defect: ActiveRequest addresses its client by slot index; the (agreeing) model
+        # says the ActiveRequest's connection slot now belongs to ANOTHER client than the one that sent the request
         return "routing:stale-active-request-reaches-new-client"
+    if what in ("routing", "disconnect"):
+        return None
     if what == "order":
         return "routing:order"
     if what == "panic":
@@ -43,8 +66,13 @@ def cleanup():
         return
     for n in names:
         m = re.match(r"^(?:verif-c11-|c11_)(\d+)", n)
-        if not m or os.path.exists("/proc/" + m.group(1)):
+        if not m:
             continue
+        try:   # a live process with that pid that is not the harness does not own these files
+            if open("/proc/%s/comm" % m.group(1)).read().strip() == "c11":
+                continue
+        except OSError:
+            pass
         vlib.sh(["rm", "-rf", os.path.join("/dev/shm", n)])
 
 
@@ -108,32 +136,33 @@ def run(ctx):
             jobs.append(("rnd:%s:%s:%s:%s:%d:%d" % (variant, cfg, setup, alpha, maxlen, i),
                          [exe, "rnd", variant, cfg, setup, "-", alpha, str(maxlen), str(i), str(nsh), seed, str(ncases)]))
 
-    L = 6 if th else 5
-    nsh = 16 if th else 4
+    L = 5 if th else 4          # local::Service: ~3000 histories/s/core
+    LI = 4 if th else 3         # ipc::Service: port creation costs ~4 ms per history
+    nsh = 16 if th else 2
     # one client x one server: life cycle, every drop order; limits 1 and 2; overflow / fire-and-forget on and off
-    exh("local", "1.1.1.1.1.1.1.0.0.0.0", "c0+s0", "-", "core", L, nsh)
-    exh("ipc", "1.1.1.1.1.1.1.0.0.0.0", "c0+s0", "-", "core", L - 1 if not th else L, nsh)
+    exh("local", "1.1.1.1.1.1.1.0.0.0.0", "c0+s0", "-", "core", L + 1, 8 if not th else 16)
+    exh("ipc", "1.1.1.1.1.1.1.0.0.0.0", "c0+s0", "-", "core", LI, nsh)
     exh("local", "2.1.1.1.1.1.1.1.1.1.0", "c0+s0", "-", "core", L, nsh)
     exh("local", "2.2.2.2.2.1.1.0.1.0.0", "c0+s0", "-", "core", L, nsh)
     exh("local", "1.1.1.2.1.1.1.1.0.1.0", "c0+s0", "-", "core", L, nsh)
     # channel reuse: preallocation override 1..2 (the channel is reused at once), and the real channel count behind
     # a prologue that leaves a response queued in channel 0 and brings channel 0 back to the front
-    exh("local", "1.1.2.2.2.1.1.0.0.0.2", "c0+s0", "-", "reuse", L, nsh)
+    exh("local", "1.1.2.2.2.1.1.0.0.0.2", "c0+s0", "-", "reuse", L + 1, 8 if not th else 16)
     exh("local", "1.1.1.1.1.1.1.0.1.1.2", "c0+s0", "-", "reuse", L, nsh)
-    exh("ipc", "2.1.2.1.2.1.1.0.0.0.1", "c0+s0", "-", "reuse", L - 1 if not th else L, nsh)
-    exh("local", "1.1.2.1.2.1.1.0.0.0.0", "c0+s0", "q_0+sr_0+as_0+pd_0+qd_0+qd_0", "reuse", L - 1, nsh)
-    exh("local", "1.1.2.1.2.1.1.1.1.1.0", "c0+s0", "q_0+sr_0+as_0+as_0+pd_0+qd_0+qd_0", "reuse", L - 1, nsh)
-    exh("ipc", "1.1.1.1.1.1.1.0.0.0.0", "c0+s0", "q_0+sr_0+as_0+pd_0+qd_0+qd_0", "core", L - 1, nsh)
+    exh("ipc", "2.1.2.1.2.1.1.0.0.0.1", "c0+s0", "-", "reuse", LI, nsh)
+    exh("local", "1.1.2.1.2.1.1.0.0.0.0", "c0+s0", "q_0+sr_0+as_0+pd_0+qd_0+qd_0", "reuse", L, nsh)
+    exh("local", "1.1.2.1.2.1.1.1.1.1.0", "c0+s0", "q_0+sr_0+as_0+as_0+pd_0+qd_0+qd_0", "reuse", L, nsh)
+    exh("ipc", "1.1.1.1.1.1.1.0.0.0.0", "c0+s0", "q_0+sr_0+as_0+pd_0+qd_0+qd_0", "core", LI, nsh)
     # loans on both sides
-    exh("local", "2.2.1.1.2.1.1.0.0.0.0", "c0+s0", "-", "loan", L - 1 if not th else L, nsh)
-    exh("local", "1.1.1.1.1.1.1.1.0.0.0", "c0+s0", "-", "loan", L - 1 if not th else L, nsh)
+    exh("local", "2.2.1.1.2.1.1.0.0.0.0", "c0+s0", "-", "loan", LI, nsh)
+    exh("local", "1.1.1.1.1.1.1.1.0.0.0", "c0+s0", "-", "loan", LI, nsh)
     # port life cycle, two clients, two servers
-    exh("local", "1.1.1.1.1.1.2.0.0.0.0", "c0+s0", "-", "ports", L, nsh)
-    exh("ipc", "1.1.1.1.1.1.1.0.0.1.0", "c0+s0", "-", "ports", L - 1 if not th else L, nsh)
+    exh("local", "1.1.1.1.1.1.2.0.0.0.0", "c0+s0", "-", "ports", L + 1, 8 if not th else 16)
+    exh("ipc", "1.1.1.1.1.1.1.0.0.1.0", "c0+s0", "-", "ports", LI, nsh)
     exh("local", "1.1.1.1.1.2.2.0.0.1.0", "c0+c1+s0", "-", "c2", L, nsh)
     exh("local", "2.1.1.1.1.1.2.1.0.0.0", "c0+c1+s0", "-", "c2", L, nsh)
     exh("local", "1.1.1.1.1.2.1.0.0.0.0", "c0+s0+s1", "-", "s2", L, nsh)
-    exh("ipc", "2.1.2.1.1.2.1.0.1.1.0", "c0+s0+s1", "-", "s2", L - 1 if not th else L, nsh)
+    exh("ipc", "2.1.2.1.1.2.1.0.1.1.0", "c0+s0+s1", "-", "s2", LI, nsh)
     # long random histories biased to channel reuse, everything at once
     nr = 400 if th else 40
     for cfg in ("2.1.2.1.2.2.2.1.0.1.0", "1.1.1.1.1.2.2.0.0.0.0", "2.2.2.2.2.2.2.0.1.0.0", "1.1.2.1.1.1.2.1.1.1.2"):
@@ -151,6 +180,36 @@ def run(ctx):
         probes[name] = line[0] if (rc == 0 and line) else "FAILED rc=%s %s" % (rc, out[-300:])
     cleanup()
     ctx.cov["probes"] = probes
+    # regression of fix: 4ac3642 (Server::receive releases the request of a vanished client): no panic when the
+    # expired-connection buffer (2) has seen 6 vanished clients and then a client vanishes whose request is held
+    for name in ("churn", "churn_faf"):
+        if not probes[name].startswith("PROBE") or "P" in probes[name].split("receive=")[1]:
+            ctx.violation("server panics / probe fails after clients vanished with undelivered requests: " + probes[name][:300],
+                          {"probe": probes[name], "how_to_rerun": exe + " churn local 6" + (" 1" if name.endswith("faf") else ""),
+                           "expected": "receive=n,... (a<i>,... with fire-and-forget) then_held_request_client_vanishes=n"})
+    import json
+    known_keys = {k.get("key") for k in ctx.known}
+    candidates = {}
+    for key, (what, argv, rx) in PENDING_CANDIDATES.items():
+        rc, out = vlib.sh(" ".join([exe] + argv) + " 2>/dev/null", timeout=300)
+        hit = re.search(rx, out) is not None
+        if not hit:
+            candidates[key] = {"what": what, "status": "no longer reproduces"}
+            continue
+        body = {"property": "C11", "key": key, "what": what, "history": [l[:200] for l in out.split("\n") if l[:2] in ("C ", "U ", "O ", "PR")][-40:],
+                "how_to_rerun": " ".join([exe] + argv)}
+        if key in known_keys:
+            ctx.violation(what, body, key=key)
+            continue
+        d = os.path.join(VERIF, "replays", "C11")
+        os.makedirs(d, exist_ok=True)
+        path = os.path.join(d, "candidate-" + key.replace(":", "-") + ".json")
+        body["status"] = "candidate, reported to the lead, not adjudicated"
+        open(path, "w").write(json.dumps(body, indent=1, sort_keys=True))
+        print("CANDIDATE-DEFECT: property=C11 key=%s replay=%s %s" % (key, path, what), flush=True)
+        candidates[key] = {"what": what, "replay": path}
+    cleanup()
+    ctx.cov["candidate_defects_pending"] = candidates
 
     ctx.cov.update({
         "evaluations": r["cases"], "distinct_nontrivial": r["distinct_nontrivial"],
@@ -164,12 +223,12 @@ def run(ctx):
                 "PendingResponse and is_connected + has_disconnect_hint of every live ActiveRequest. The oracle of the property "
                 "(extracted o_recv / o_act_connected) runs on the implementation's observations: routing, per-(pending, server) "
                 "order, at most once, no response after channel reuse, an ActiveRequest is connected only while its "
-                "PendingResponse lives, no panic. exhaustive: all operation sequences of length %d (ipc: %d) over 10-14 "
+                "PendingResponse lives, no panic. exhaustive: all operation sequences of length %d..%d (ipc: %d) over 10-14 "
                 "operation alphabets (core, loan, ports, c2, s2, reuse), limits 1..2, overflow and fire-and-forget on/off, "
                 "preallocation override 1..2 and prologues that force channel reuse; random: seeded histories up to 300 "
                 "operations over the full 39-operation alphabet (2 client slots x 2 server slots), 22%% channel-reuse patterns. "
                 "distinct = distinct (configuration, history) ignoring the service variant; non-trivial = at least one response "
-                "was received." % (L, L - 1 if not th else L),
+                "was received." % (L, L + 1, LI),
         "exhaustive": False,
     })
     samples = []
@@ -188,10 +247,13 @@ def run(ctx):
         case_no = int(line.split("case=")[1].split()[0])
         hist = vlib.extract_case(cmd.split(), driver, case_no)
         if key == "routing:stale-active-request-reaches-new-client" and not index_reuse(hist):
-            key = "routing:other"     # the known class needs a client created after a client was dropped
-        if key in reported:
+            key = None     # the known class needs a client created after a client was dropped
+        sig = key or re.search(r"what=(\w+)", line).group(1)
+        ctx.cov.setdefault("spec_mismatch_signatures", {})
+        ctx.cov["spec_mismatch_signatures"][sig] = ctx.cov["spec_mismatch_signatures"].get(sig, 0) + 1
+        if sig in reported:
             continue
-        reported.add(key)
+        reported.add(sig)
         op_no = int(line.split("op=")[1].split()[0])
         ctx.violation("request-response ports differ from the reference specification: " + line[:300],
                       {"history": [h[:200] for h in hist[:op_no + 2]], "harness_cmd": cmd, "mismatch": line[:600],
